@@ -54,6 +54,9 @@ pub struct ConnScenario {
     /// idle ticks granted at the end
     pub tail_ticks: u32,
     pub filter: String,
+    /// E4: run the same program on real `TcpTransport` nodes over loopback sockets
+    #[serde(default)]
+    pub real_tcp: bool,
 }
 
 pub struct St {
@@ -80,6 +83,8 @@ pub struct St {
     held_history: Vec<(u32, usize)>,
     y_exited_at_step: Option<usize>,
     timeline: Vec<(u32, String)>,
+    /// trace class before the end-of-run probes added their own events
+    frozen_class: Option<String>,
 }
 
 fn spawn_drain<S: futures::Stream + Unpin + Send + 'static>(w: &mut World, node: usize, name: &str, mut s: S)
@@ -103,7 +108,7 @@ impl ConnScenario {
             b = b.with_libp2p_ping(cfg);
             ping_events = Some(ev);
         }
-        let n = w.add_node(seed, b).expect("node");
+        let n = if self.real_tcp { w.add_tcp_node(seed, b).expect("tcp node") } else { w.add_node(seed, b).expect("node") };
         if let Some(ev) = ping_events {
             spawn_drain(w, n, "ping-events", ev);
         }
@@ -157,6 +162,7 @@ impl Scenario for ConnScenario {
             held_history: Vec::new(),
             y_exited_at_step: None,
             timeline: Vec::new(),
+            frozen_class: None,
         }
     }
 
@@ -232,6 +238,10 @@ impl Scenario for ConnScenario {
         (self.tail_ticks, Duration::from_secs(1))
     }
 
+    fn real_io(&self) -> bool {
+        self.real_tcp
+    }
+
     fn monitor(&self, st: &mut St, w: &World) -> Vec<Viol> {
         // timestamp newly observed events
         let xl = st.x.log.lock();
@@ -271,6 +281,7 @@ impl Scenario for ConnScenario {
             return v;
         }
         self.monitor(st, w);
+        st.frozen_class = Some(self.trace_class(st, w));
         let x = st.x.log.lock().clone();
         let y = st.y.log.lock().clone();
         let app: Vec<NodeLog> = w.nodes[st.l].log.lock().clone();
@@ -355,7 +366,14 @@ impl Scenario for ConnScenario {
 
         // ---------------- C07: closed exactly once to everyone ----------------
         if self.is("c07") {
-            let all_ended = w.links.iter().all(|l| l.a_to_b.writer_closed() || l.b_to_a.writer_closed()) || !w.nodes[st.r].alive;
+            let all_ended = if self.real_tcp {
+                // no carrier handles on real sockets: the program tells whether every connection must have ended
+                !w.nodes[st.r].alive
+                    || self.program.iter().any(|o| matches!(o, COp::ForceCloseX))
+                    || (self.keep_alive <= 8 && st.now >= st.established_at.last().copied().unwrap_or(0) + self.keep_alive + 2 && st.x.substreams.lock().iter().all(|s| s.is_none()) && st.y.substreams.lock().iter().all(|s| s.is_none()))
+            } else {
+                w.links.iter().all(|l| l.a_to_b.writer_closed() || l.b_to_a.writer_closed()) || !w.nodes[st.r].alive
+            };
             let app_est = app.iter().filter(|e| matches!(e, NodeLog::Event(s) if s.starts_with("ConnectionEstablished"))).count();
             let app_closed = app.iter().filter(|e| matches!(e, NodeLog::Event(s) if s.starts_with("ConnectionClosed"))).count();
             for (name, log, running) in [("X", &x, true), ("Y", &y, !y_exited)] {
@@ -404,7 +422,7 @@ impl Scenario for ConnScenario {
                 }
             }
             // a new connection after Y exited must still reach X (and the application): probe
-            if y_exited && w.nodes[st.r].alive {
+            if y_exited && w.nodes[st.r].alive && !self.real_tcp {
                 let x_est = x.iter().filter(|e| matches!(e, Seen::Established { .. })).count();
                 let x_closed = x.iter().filter(|e| matches!(e, Seen::Closed { .. })).count();
                 if x_est == x_closed && all_ended {
@@ -421,7 +439,7 @@ impl Scenario for ConnScenario {
                 }
             }
             // after everything ended the peer must count as disconnected: a dial is attempted
-            if all_ended && w.nodes[st.r].alive && !y_exited {
+            if all_ended && w.nodes[st.r].alive && !y_exited && !self.real_tcp {
                 let before = app.iter().filter(|e| matches!(e, NodeLog::Event(s) if s.starts_with("ConnectionEstablished"))).count();
                 let _ = w.nodes[st.l].cmd.send(NodeCmd::Dial(st.peer_r));
                 w.run_to_quiescence(50_000);
@@ -487,6 +505,9 @@ impl Scenario for ConnScenario {
     }
 
     fn trace_class(&self, st: &St, w: &World) -> String {
+        if let Some(c) = &st.frozen_class {
+            return c.clone();
+        }
         format!(
             "X{:?}|Y{:?}|A{:?}|t{:?}{:?}",
             shorts(&st.x.log.lock()),
@@ -526,7 +547,7 @@ fn short_app(e: &NodeLog) -> String {
 }
 
 fn sc(filter: &str, keep_alive: u32, with_ping: bool, tail: u32, program: Vec<COp>) -> ConnScenario {
-    ConnScenario { program, keep_alive, with_ping, tail_ticks: tail, filter: filter.into() }
+    ConnScenario { program, keep_alive, with_ping, tail_ticks: tail, filter: filter.into(), real_tcp: false }
 }
 
 pub fn scenarios(filter: &str, thorough: bool) -> Vec<ConnScenario> {
@@ -611,6 +632,36 @@ pub fn scenarios(filter: &str, thorough: bool) -> Vec<ConnScenario> {
     v
 }
 
+/// programs replayed on real TCP nodes (no carrier-level link cut there: terminations are remote crash, force close
+/// and idle expiry)
+pub fn e4_scenarios(filter: &str) -> Vec<ConnScenario> {
+    use COp::*;
+    let mut v = Vec::new();
+    if filter == "c07" {
+        for prog in [
+            vec![Connect, KillRemote],
+            vec![Connect, OpenX, KillRemote],
+            vec![Connect, OpenX, OpenY, RemoteOpenX, KillRemote],
+            vec![Connect, ForceCloseX],
+            vec![Connect, OpenX, ForceCloseX],
+        ] {
+            v.push(sc("c07", 60, false, 4, prog));
+        }
+        v.push(sc("c07", 2, false, 8, vec![Connect, Wait(4)]));
+        v.push(sc("c07", 2, false, 8, vec![Connect, OpenX, DropSubX(0), Wait(4)]));
+        v.push(sc("c07", 4, true, 12, vec![Connect, Wait(5)]));
+    } else {
+        let t = 4;
+        v.push(sc("c09", t, false, 3 * t, vec![Connect]));
+        v.push(sc("c09", t, false, 3 * t, vec![Connect, Wait(3), OpenX, Wait(1), DropSubX(0)]));
+        v.push(sc("c09", t, false, 3 * t, vec![Connect, Wait(1), OpenX, Wait(7), DropSubX(0)]));
+        v.push(sc("c09", t, false, 3 * t, vec![Connect, OpenX, Wait(9)]));
+        v.push(sc("c09", t, true, 3 * t, vec![Connect]));
+        v.push(sc("c09", t, false, 3 * t, vec![Connect, Wait(2), RemoteOpenX]));
+    }
+    v
+}
+
 pub fn run_filtered(ctx: &mut Ctx, filter: &'static str) {
     let thorough = ctx.tier == crate::report::Tier::Thorough;
     let bound = match (filter, thorough) {
@@ -619,12 +670,43 @@ pub fn run_filtered(ctx: &mut Ctx, filter: &'static str) {
         (_, false) => 2,
         (_, true) => 3,
     };
-    let e2 = E2 { bound, max_executions: 3_000_000, ..Default::default() };
     let scns = scenarios(filter, thorough);
     ctx.cov("programs", scns.len() as u64);
     for s in &scns {
+        // quick tier: the full bound only for short programs, one deviation less for the long ones
+        let b = if !thorough && filter != "c09" && s.program.len() > 3 { bound - 1 } else { bound };
+        let e2 = E2 { bound: b, max_executions: 3_000_000, ..Default::default() };
         let out = e2.explore(s);
         e2::absorb(ctx, &s.name(), out);
+    }
+    // ---- E4: the same programs on real TcpTransport / TcpConnection nodes over loopback sockets ----
+    if filter == "c07" || filter == "c09" {
+        let e4 = E2 { bound: if thorough { 1 } else { 0 }, max_executions: 200_000, threads: 4, ..Default::default() };
+        let mut conform = 0u64;
+        let mut compared = 0u64;
+        for s in e4_scenarios(filter) {
+            let mut tcp = s.clone();
+            tcp.real_tcp = true;
+            // conformance: the protocol- and application-visible trace of the default schedule must be the one SimNet
+            // produces for the same program
+            let a = e2::run_one(&s, &[], e4.seed);
+            let b = e2::run_one(&tcp, &[], e4.seed);
+            compared += 1;
+            if a.class == b.class {
+                conform += 1;
+            } else {
+                ctx.violation(crate::report::Violation {
+                    signature: format!("{filter}/e4/simnet-trace-differs-from-tcp"),
+                    what: format!("program {:?}: SimNet trace {} but real TCP nodes produce {}", s.program, a.class, b.class),
+                    replay: serde_json::json!({"engine": "E2", "scenario": tcp.name(), "config": tcp.config(), "schedule": [], "seed": e4.seed}),
+                });
+            }
+            let out = e4.explore(&tcp);
+            e2::absorb(ctx, &format!("E4:{}", tcp.name()), out);
+        }
+        ctx.cov("e4_programs_on_real_tcp", compared);
+        ctx.cov("e4_simnet_traces_equal_to_tcp_traces", conform);
+        ctx.assume("E4 (real loopback TCP, Noise, yamux, TcpConnection): socket readiness order is decided by the kernel; the explorer settles I/O (driver turns + 2 ms pauses) before it treats the system as idle; virtual clock with auto-advance inhibited");
     }
     ctx.cov("deviation_bound", bound as u64);
     ctx.cov(
